@@ -244,3 +244,13 @@ def test_c20_phase_keeps_the_record_well_formed(tmp_path):
     out = str(tmp_path / "o.gaf")
     phase.run(gaf_file=gaf, tsv_file=tsv, output=out)
     assert open(out).read() == "r1\t20\t3\t13\t-\t>s1>s2\t18\t2\t12\t9\t10\t60\tps:Z:chr1-1205\tht:Z:H1\ttp:A:P\tcg:Z:10=\n"
+
+
+def test_c06_numeric_segment_names_do_not_collide_with_bubble_names(tmp_path):
+    from gaftools.cli.order_gfa import run_order_gfa
+
+    text = CHAIN1.replace("s10", "2").replace("s9", "1").replace("s8", "0")  # vg-style ids (fix for the bubble-name collision)
+    gfa = w(tmp_path / "g.gfa", text)
+    run_order_gfa(gfa_filename=gfa, outdir=str(tmp_path / "o"), by_chrom=True, chromosome_order="chr1")
+    bo = _bo(tmp_path / "o" / "g-chr1.gfa")
+    assert bo["0"] < bo["1"] < bo["2"], bo
